@@ -104,6 +104,44 @@ def _convert_task(task):
     return part
 
 
+def _legacy_task(pairs):
+    """cross-type requests written with a LEGACY spelling of the foreign unit must be rejected too"""
+    part = Part()
+    with worlds.world("posc") as db:
+        reps = {}
+        for u, i in db.unit_to_unit_info.items():
+            reps.setdefault(i.quantity_type, u)
+        for legacy, current in pairs:
+            lqt = db.GetQuantityType(current)
+            for qt, r in reps.items():
+                if qt == lqt or qt in EXEMPT_QT or lqt in EXEMPT_QT:
+                    continue
+                c = db.GetDefaultCategory(r)
+                if not c:
+                    continue
+                part.count("nontrivial")
+                sn = "import numpy as np\nfrom mc import worlds\nfrom barril.units import *\nfrom barril.units import FractionScalar\nwith worlds.world('posc') as db:\n    try:\n        r = %s\n    except (UnitsError, TypeError, ValueError) as e:\n        print('raised', type(e).__name__); raise SystemExit(0)\n    print('returned', r); raise SystemExit(1)\n"
+                sig = "C05:legacy %s (%s) vs %s:" % (legacy, lqt, r)
+                _loud(part, sig + "db.Convert to", lambda: db.Convert(qt, r, legacy, 1.5), {}, sn % ("db.Convert(%r, %r, %r, 1.5)" % (qt, r, legacy)))
+                _loud(part, sig + "db.Convert from", lambda: db.Convert(qt, legacy, r, 1.5), {}, sn % ("db.Convert(%r, %r, %r, 1.5)" % (qt, legacy, r)))
+                _loud(part, sig + "db.Convert by the legacy unit's type", lambda: db.Convert(lqt, r, legacy, 1.5), {}, sn % ("db.Convert(%r, %r, %r, 1.5)" % (lqt, r, legacy)))
+                _loud(part, sig + "db.Convert ndarray", lambda: db.Convert(qt, r, legacy, np.array([1.5, 2.5])), {}, sn % ("db.Convert(%r, %r, %r, np.array([1.5, 2.5]))" % (qt, r, legacy)))
+                _loud(part, sig + "db.Convert list", lambda: db.Convert(qt, r, legacy, [1.5, 2.5]), {}, sn % ("db.Convert(%r, %r, %r, [1.5, 2.5])" % (qt, r, legacy)))
+                _loud(part, sig + "Scalar.GetValue", lambda: Scalar(1.5, r, c).GetValue(legacy), {}, sn % ("Scalar(1.5, %r, %r).GetValue(%r)" % (r, c, legacy)))
+                _loud(part, sig + "Array.GetValues", lambda: Array([1.5, 2.5], r, c).GetValues(legacy), {}, sn % ("Array([1.5, 2.5], %r, %r).GetValues(%r)" % (r, c, legacy)))
+                _loud(part, sig + "Array[ndarray].GetValues", lambda: Array(np.array([1.5, 2.5]), r, c).GetValues(legacy), {}, sn % ("Array(np.array([1.5, 2.5]), %r, %r).GetValues(%r)" % (r, c, legacy)))
+                _loud(part, sig + "FractionScalar.GetValue", lambda: FractionScalar(c, 1.5, r).GetValue(legacy), {}, sn % ("FractionScalar(%r, 1.5, %r).GetValue(%r)" % (c, r, legacy)))
+                _loud(part, sig + "Quantity.Convert", lambda: ObtainQuantity(r, c).Convert(1.5, legacy), {}, sn % ("ObtainQuantity(%r, %r).Convert(1.5, %r)" % (r, c, legacy)))
+                _loud(part, sig + "CreateCopy(unit)", lambda: Scalar(1.5, r, c).CreateCopy(unit=legacy), {}, sn % ("Scalar(1.5, %r, %r).CreateCopy(unit=%r)" % (r, c, legacy)))
+                _loud(part, sig + "Scalar constructor", lambda: Scalar(1.5, legacy, c), {}, sn % ("Scalar(1.5, %r, %r)" % (legacy, c)))
+                _loud(part, sig + "ObtainQuantity", lambda: ObtainQuantity(legacy, c), {}, sn % ("ObtainQuantity(%r, %r)" % (legacy, c)))
+                _loud(part, sig + "Array constructor", lambda: Array([1.5], legacy, c), {}, sn % ("Array([1.5], %r, %r)" % (legacy, c)))
+                _loud(part, sig + "FractionScalar constructor", lambda: FractionScalar(c, 1.5, legacy), {}, sn % ("FractionScalar(%r, 1.5, %r)" % (c, legacy)))
+                _loud(part, sig + "Scalar + Scalar", lambda: Scalar(1.5, r, c) + Scalar(1.0, legacy), {}, sn % ("Scalar(1.5, %r, %r) + Scalar(1.0, %r)" % (r, c, legacy)))
+                _loud(part, sig + "Scalar < Scalar", lambda: Scalar(1.5, r, c) < Scalar(1.0, legacy), {}, sn % ("Scalar(1.5, %r, %r) < Scalar(1.0, %r)" % (r, c, legacy)))
+    return part
+
+
 _G = {}
 OPS6 = [
     ("+", lambda a, b: a + b),
@@ -304,7 +342,7 @@ def replay(names):
 
 
 def _dispatch(task):
-    return {"construct": _construct_task, "convert": _convert_task, "derived": _derived_task, "hist": _hist_task}[task[0]](task[1])
+    return {"legacy": _legacy_task, "construct": _construct_task, "convert": _convert_task, "derived": _derived_task, "hist": _hist_task}[task[0]](task[1])
 
 
 def run(ctx):
@@ -317,6 +355,9 @@ def run(ctx):
     tasks = [("construct", c) for c in chunks(cats, 32)]
     tasks += [("convert", (c, ctx.thorough)) for c in chunks(units, 64)]
     tasks += [("derived", c) for c in chunks(range(len(graph)), 16)]
+    from .c16 import legacy_spellings
+
+    tasks += [("legacy", c) for c in chunks(legacy_spellings(set(units)), 16)]
     tasks += [("hist", (depth, [i])) for i in range(len(HOPS))]
     run_sharded(ctx, _dispatch, tasks)
     c = ctx.part.counters
@@ -325,7 +366,7 @@ def run(ctx):
     ctx.transitions = c.get("transitions", 0)
     ctx.traces = c.get("transitions", 0)
     ctx.rule = (
-        "(a) every cross-type (unit, category) of posc through the constructors, every cross-type unit pair (%s) through the conversions, every ordered pair of depth-2 derived states with different dimension vectors through + - < <= > >=; "
+        "(a) every cross-type (unit, category) of posc through the constructors, every cross-type unit pair (%s) through the conversions, every derivable legacy spelling x every foreign quantity type through 17 conversion / construction / arithmetic entry points, every ordered pair of depth-2 derived states with different dimension vectors through + - < <= > >=; "
         "(b) every sequence of length <= %d over %d valid and %d invalid operations (no de-duplication); non-trivial = cross-type inputs + histories that contain a rejected step before the judged one; outcomes = distinct exception classes / canonical outcomes"
         % ("all pairs" if ctx.thorough else "one representative target per foreign type", depth, len(VALID), len(INVALID))
     )
